@@ -135,6 +135,24 @@ def run(chk, repo):
     chk.ob('C19.e', 'denylist membership tested on the sequence', repo.loc(f, loop), len(dn) == 1 and unparse(dn[0].value) == 'denylist is not None and peptide.seq in denylist',
            'denylist test altered', key=F + '::denylist', fn=f.qual)
 
+    # ------------------------------------------------------------------ g
+    chk.rule('C19.g', 'R-LOCKSTEP: positional reads of get_transcript_ids() need an ordered producer (donor transcript first)', 2)
+    gti = repo.func('aa.VariantPeptideLabel:VariantPeptideInfo.get_transcript_ids')
+    chk.uses(gti)
+    positional = [n for n in ast.walk(f.node) if isinstance(n, ast.Subscript) and isinstance(n.value, ast.Call) and call_name(n.value) == 'get_transcript_ids']
+    rets = [n for n in walk_no_nested(gti.node) if isinstance(n, ast.Return)]
+    ordered = all(isinstance(r.value, ast.List) for r in rets)
+    chk.ob('C19.g', f"get_transcript_ids returns list displays (element order is fixed by the source) - {len(positional)} positional reader(s) in filter()", gti.where,
+           bool(rets) and (ordered or not positional),
+           f"{[unparse(r.value)[:50] for r in rets if not isinstance(r.value, ast.List)]} is not an ordered list display, but filter() reads element "
+           f"{[unparse(p_.slice) for p_ in positional]}: which transcript decides `is_canonical` becomes arbitrary", key=gti.qual + '::ordered', fn=gti.qual)
+    fus = [r for r in rets if any(isinstance(a, ast.If) and 'FusionVariantPeptideIdentifier' in unparse(a.test) for a in repo.ancestors(r))]
+    okf = len(fus) == 1 and isinstance(fus[0].value, ast.List) and len(fus[0].value.elts) == 2 and unparse(fus[0].value.elts[0]).endswith('.first_tx_id') \
+        and unparse(fus[0].value.elts[1]).endswith('.second_tx_id')
+    chk.ob('C19.g', 'fusion entries list the donor (first) transcript first', repo.loc(gti, fus[0]) if fus else gti.where, okf or not positional,
+           f"fusion branch returns {unparse(fus[0].value) if fus else None}: filter() takes element [0] as the transcript that decides whether a denylisted entry is "
+           "canonical, so with another order --keep-canonical keeps / drops fusion entries by the wrong transcript", key=gti.qual + '::donor-first', fn=gti.qual)
+
     # ------------------------------------------------------------------ f
     chk.rule('C19.f', 'R-TRUTHY: numeric options are never tested by truthiness (0 is a legal value)', 1)
     from sa import options as O
